@@ -90,3 +90,39 @@ pub fn run_bin(data: &[u8]) {
         if b != &data[2..] { panic!("VERIF roundtrip bytes-differ"); }
     }
 }
+
+/// Sources used by the mapfile target: they use every statement kind an intrinsic can serve, plus opcodes 900..905 in call form.
+const MAP_SOURCES: &[(&str, &str, &str)] = &[
+    ("anm", "th12", "entry { path: \"a.png\", has_data: false, img_width: 64, img_height: 64, img_format: 3, sprites: {sprite0: {id: 0, x: 0.0, y: 0.0, w: 1.0, h: 1.0}} }\nscript script0 {\n  $REG[10000] = 3;\n  %REG[10004] += 1.5;\n  $REG[10000] = $REG[10001] + 3;\n  $REG[10000] = %REG[10004] < 2.0;\n  $REG[10000] = -$REG[10001];\n  %REG[10004] = sin(%REG[10005]);\nlbl:\n  if (--$REG[10000]) goto lbl;\n  if ($REG[10000] == 1) goto lbl;\n  if (%REG[10004] < 1.0) goto lbl @ 5;\n  interrupt[1]:\n  ins_900(1, 2, 3.0);\n  ins_901(\"abc\");\n  ins_902(offsetof(lbl), timeof(lbl));\n  times($REG[10001] = 3) { ins_903(); }\n  goto lbl;\n}\n"),
+    ("ecl", "th06", "void sub0() {\n  $REG[-10001] = 3;\n  $REG[-10001] = $REG[-10002] + 3;\n  %REG[-10005] = %REG[-10006] * 2.0;\nlbl:\n  if ($REG[-10001] == 1) goto lbl;\n  if (--$REG[-10001]) goto lbl;\n  {\"E\"}: ins_900(1, 2, 3.0);\n  ins_901(\"abc\");\n  sub0();\n  goto lbl;\n}\nscript timeline0 {\n  ins_900(sub0, 1.0, 2.0);\n  10: ins_901(3);\n}\n"),
+    ("ecl", "th08", "void sub0(int a, float b) {\n  $REG[10000] = a + 3;\n  %REG[10004] = b * 2.0;\nlbl:\n  if ($REG[10000] == 1) goto lbl;\n  times(3) { ins_900(1, 2, 3.0); }\n  ins_901(\"abc\");\n  sub0(1, 2.0);\n  goto lbl;\n}\nscript timeline0 {\n  ins_900(sub0, 1.0, 2.0);\n}\n"),
+    ("ecl", "th12", "meta { anim: [\"a.anm\"], ecli: [] }\nvoid main() {\n  ins_900(1, 2, 3.0);\n  +10: ins_901(\"abc\");\n  {\"EN\"}: ins_902(7);\n}\n"),
+    ("msg", "th08", "meta { table: { 0: {script: \"script0\"} } }\nscript script0 {\n  ins_900(1, 2, 3.0);\n  ins_901(\"abc\");\n  +5: ins_902(7);\n}\n"),
+    ("msg", "th12", "meta { table: { 0: {script: \"script0\"} } }\nscript script0 {\n  ins_900(1, 2, 3.0);\n  ins_901(\"|furi\");\n  ins_901(\"abc\");\n}\n"),
+    ("std", "th12", "meta { unknown: 0, anm_path: \"a.anm\", objects: {}, instances: [] }\nscript main {\n  ins_900(1, 2, 3.0);\nlbl:\n  +5: ins_901(\"abc\");\n  goto lbl;\n}\n"),
+];
+pub fn map_table_json() -> Value {
+    Value::Array(MAP_SOURCES.iter().map(|(t, g, src)| json!({"tool": t, "game": g, "source": src})).collect())
+}
+
+/// C04 (mapfile clause): byte 0 selects the language/source, the rest is a mapfile text.
+pub fn run_map(data: &[u8]) {
+    if data.len() < 1 { return; }
+    let (tool, game, src) = MAP_SOURCES[data[0] as usize % MAP_SOURCES.len()];
+    let d = scratch();
+    let inp = d.join(format!("msrc.{}", tool)); let out = d.join("mout.bin"); let map = d.join("user.map");
+    std::fs::write(&inp, src).unwrap();
+    std::fs::write(&map, &data[1..]).unwrap();
+    let mut j = job((tool, game, ""), "compile", &inp, &out);
+    j["maps"] = json!([map.to_str().unwrap()]);
+    let (ok, diag) = obs(crate::ops_cli::run_cli(&j));
+    if ok == has_error_diag(&diag) { panic!("VERIF exit-mismatch ok={} diag={:?}", ok, diag.lines().next()); }
+    if ok {
+        // the file written under this mapfile must be readable under the same mapfile
+        let txt = d.join("mback.txt");
+        let mut dj = job((tool, game, ""), "decompile", &out, &txt);
+        dj["maps"] = json!([map.to_str().unwrap()]);
+        let (ok2, diag2) = obs(crate::ops_cli::run_cli(&dj));
+        if ok2 == has_error_diag(&diag2) { panic!("VERIF exit-mismatch decompile ok={} diag={:?}", ok2, diag2.lines().next()); }
+    }
+}
